@@ -17,7 +17,11 @@ package main
 //	chain-hang                  a call neither began, returned nor blocked as expected
 
 import (
+	"bytes"
+	"encoding/json"
 	"fmt"
+	"os"
+	"os/exec"
 	"strings"
 	"sync"
 	"time"
@@ -396,9 +400,177 @@ func checkThenOrder(res *lib.Result, rg *lib.Rand) {
 	_ = rg
 }
 
+// runChainViaCron: the wrappers as the scheduler applies them (Schedule wraps with c.chain.Then,
+// startJob runs e.WrappedJob): one entry firing every second with a job that blocks.
+//
+//	chain-via-cron-overlap     WithChain(Skip|Delay): two instances of the job ran at the same time
+//	chain-via-cron-count       Skip: runs + skip logs != scheduler launches; Delay: a launch never ran
+//	chain-via-cron-recover     WithChain(Recover): error logs != panics (a panic that escapes kills
+//	                           the process: reported by bin/check as a broken harness run)
+func runChainViaCron(res *lib.Result, rg *lib.Rand, first, n int) {
+	waitParked := func(clk *VClock, prev *vtimer) *vtimer {
+		for i := 0; i < 4000000; i++ {
+			if t := clk.Last(); t != nil && t != prev && !t.Fired() {
+				return t
+			}
+			time.Sleep(5 * time.Microsecond)
+		}
+		return clk.Last()
+	}
+	for it := 0; it < n; it++ {
+		kind := []string{"skip", "delay", "recover"}[(first+it)%3]
+		clk := NewVClock(toTime(10))
+		lg := &chainLogger{}
+		var w cron.JobWrapper
+		switch kind {
+		case "skip":
+			w = cron.SkipIfStillRunning(lg)
+		case "delay":
+			w = cron.DelayIfStillRunningWithClock(lg, clk)
+		default:
+			w = cron.Recover(lg)
+		}
+		c := cron.New(cron.WithClock(clk), cron.WithLocation(time.UTC), cron.WithLogger(cron.DiscardLogger), cron.WithChain(w))
+		var mu sync.Mutex
+		running, maxConc, begins, panics := 0, 0, 0, 0
+		gate := make(chan bool, 64)
+		blockFirst := rg.Range(1, 3)
+		c.Schedule(goSched{SchedDesc{K: "p", P: 1, O: 1}}, cron.FuncJob(func() {
+			mu.Lock()
+			running++
+			begins++
+			b := begins
+			if running > maxConc {
+				maxConc = running
+			}
+			mu.Unlock()
+			p := false
+			if kind == "recover" {
+				p = b%2 == 0
+			} else if b <= blockFirst {
+				p = <-gate // blocks until released
+			}
+			mu.Lock()
+			running--
+			if p {
+				panics++
+			}
+			mu.Unlock()
+			if p {
+				panic("job panics")
+			}
+		}))
+		c.Start()
+		tm := waitParked(clk, nil)
+		launches := rg.Range(3, 6)
+		for k := 0; k < launches; k++ {
+			clk.Advance(toTime(11 + k))
+			tm = waitParked(clk, tm)
+		}
+		time.Sleep(300 * time.Microsecond)
+		mu.Lock()
+		conc1, begins1 := maxConc, begins
+		mu.Unlock()
+		for k := 0; k < 8; k++ {
+			gate <- false
+		}
+		ctx := c.Stop()
+		select {
+		case <-ctx.Done():
+		case <-time.After(waitLimit):
+			res.Violate("stop-ctx-never-done", "chain-via-cron: Stop context not done after every job was released", map[string]any{"family": "chain", "kind": "via-cron-" + kind})
+		}
+		mu.Lock()
+		lg.mu.Lock()
+		cs := map[string]any{"family": "chain", "kind": "via-cron-" + kind, "launches": launches, "blocking_runs": blockFirst}
+		switch kind {
+		case "skip":
+			if conc1 > 1 {
+				res.Violate("chain-via-cron-overlap", fmt.Sprintf("WithChain(SkipIfStillRunning): %d instances ran at once", conc1), cs)
+			}
+			if begins1 != 1 || begins+lg.skip != launches {
+				res.Violate("chain-via-cron-count", fmt.Sprintf("WithChain(SkipIfStillRunning): %d launches, %d runs while blocked, %d runs + %d skips in total", launches, begins1, begins, lg.skip), cs)
+			}
+		case "delay":
+			if maxConc > 1 {
+				res.Violate("chain-via-cron-overlap", fmt.Sprintf("WithChain(DelayIfStillRunning): %d instances ran at once", maxConc), cs)
+			}
+			if begins != launches || lg.skip != 0 {
+				res.Violate("chain-via-cron-count", fmt.Sprintf("WithChain(DelayIfStillRunning): %d launches, %d runs", launches, begins), cs)
+			}
+		default:
+			if lg.panics != panics || begins != launches {
+				res.Violate("chain-via-cron-recover", fmt.Sprintf("WithChain(Recover): %d launches, %d runs, %d panics, %d error logs", launches, begins, panics, lg.panics), cs)
+			}
+		}
+		lg.mu.Unlock()
+		mu.Unlock()
+		res.Hit("chain:via-cron:" + kind)
+		res.Count(fmt.Sprintf("chain-via-cron:%s:%d:%d", kind, launches, blockFirst), true)
+	}
+}
+
+// viaCronChild is the body of the child process (a panic that escapes a wrapper kills it).
+func viaCronChild(n int, seed uint64) {
+	res := lib.NewResult("")
+	rg := lib.NewRand(seed)
+	seen := 0
+	for i := 0; i < n; i++ {
+		runChainViaCron(res, rg, i, 1)
+		for _, v := range res.Violations[seen:] {
+			b, _ := json.Marshal(v)
+			fmt.Printf("VIOL %s\n", b)
+		}
+		seen = len(res.Violations)
+	}
+	fmt.Printf("DONE %d\n", n)
+}
+
+func runViaCronChild(res *lib.Result, n int, seed uint64) {
+	cmd := exec.Command(os.Args[0])
+	cmd.Env = append(os.Environ(), fmt.Sprintf("C05_VIACRON_CHILD=%d:%d", n, seed))
+	var outb, errb bytes.Buffer
+	cmd.Stdout, cmd.Stderr = &outb, &errb
+	done := make(chan error, 1)
+	if err := cmd.Start(); err != nil {
+		res.Note("chain-via-cron child could not start: " + err.Error())
+		return
+	}
+	go func() { done <- cmd.Wait() }()
+	var err error
+	select {
+	case err = <-done:
+	case <-time.After(180 * time.Second):
+		cmd.Process.Kill()
+		err = fmt.Errorf("timeout")
+	}
+	finished := false
+	for _, l := range strings.Split(outb.String(), "\n") {
+		if strings.HasPrefix(l, "VIOL ") {
+			var v lib.Violation
+			if json.Unmarshal([]byte(l[5:]), &v) == nil {
+				res.Violate(v.FindingID, v.What, v.Case)
+			}
+		}
+		if strings.HasPrefix(l, "DONE") {
+			finished = true
+		}
+	}
+	res.Hit(fmt.Sprintf("chain:via-cron-scenarios:%d", n))
+	if err != nil || !finished {
+		msg := errb.String()
+		if len(msg) > 1200 {
+			msg = msg[:1200]
+		}
+		res.Violate("chain-via-cron-panic-escaped", fmt.Sprintf("process running jobs under WithChain(Skip|Delay|Recover) died (%v): %s", err, msg),
+			map[string]any{"family": "chain", "kind": "via-cron"})
+	}
+}
+
 // runChainFamily runs n generated wrapper scenarios and checks their traces with `kitdrv C05 chain`.
 func runChainFamily(res *lib.Result, rg *lib.Rand, n int, drvPath string) {
 	checkThenOrder(res, rg)
+	runViaCronChild(res, n/4, rg.U64())
 	drv, err := lib.StartDrv(drvPath, "C05", "chain")
 	if err != nil {
 		drv = nil
